@@ -13,7 +13,9 @@ rate-limit outcome (C20) are inputs (`Env`).  The decision logic — order of ch
 fields are echoed, number of cookies, sizes, statistics entry, every panic site — is in the model.
 
 The model describes the code WITH the proposed fixes F-C15 (mode check also for undecryptable requests),
-F-C22a (no debug assertion on the request's nonce length) and F-C22b (root variance clamped at zero).
+F-C22a (no debug assertion on the request's nonce length), F-C22b (root variance clamped at zero), F-C19a (the
+eight-cookie limit applies after selecting cookie / placeholder fields) and F-C17d (an NTPv5 request without our
+draft identification is ignored also when its authentication fails).
 -/
 import NtpVerif.Basic.F64
 import NtpVerif.Basic.Wrap
@@ -86,6 +88,7 @@ structure Req where
   cookie : Option Nat              -- AEAD algorithm id of the decoded cookie
   encw : Nat                       -- octets of the request's NtsEncryptedField(s)
   mac : Nat                        -- octets after the extension fields (MAC)
+  draftOk : Bool := true           -- `packet.has_valid_draft_id()`: NTPv5 packets identify our draft version
 deriving Repr
 
 /-- synchronisation state (`NtpServerInfo`) and key-set health -/
@@ -281,14 +284,15 @@ def isCookieLike : Field → Bool
   | .placeholder _ => true
   | _ => false
 
-/-- one fresh cookie per cookie / placeholder field that is long enough -/
+/-- one fresh cookie per cookie / placeholder field that is long enough; the first eight of them (fix F-C19a:
+    the limit applies to the cookies produced, not to the fields looked at) -/
 def cookieFor (alg : Nat) : Field → Option RField
   | .cookie n => if freshCookieLen alg > n then none else some (.cookie (freshCookieLen alg))
   | .placeholder n => if freshCookieLen alg > n then none else some (.cookie (freshCookieLen alg))
   | _ => none
 
 def freshCookies (alg : Nat) (req : Req) : List RField :=
-  ((req.auth ++ req.enc).take Gen.MAX_COOKIES).filterMap (cookieFor alg)
+  ((req.auth ++ req.enc).filterMap (cookieFor alg)).take Gen.MAX_COOKIES
 
 def kissHeader (req : Req) (refid : Bytes) (poll : Nat) (authnak : Bool) : Header :=
   { version := req.version, mode := 4, leap := 0, stratum := 0, poll := poll, precision := 0,
@@ -348,8 +352,8 @@ def ntsTimestampResponse (info : Info) (env : Env) (req : Req) (alg : Nat) : Bui
   else match rootDispersion env.rvar with
   | none => .panic
   | some disp =>
-    -- `encode_cookie` indexes `keys[primary]` for every cookie / placeholder among the first eight fields
-    if !info.keysOk && ((req.auth ++ req.enc).take Gen.MAX_COOKIES).any isCookieLike then .panic
+    -- `encode_cookie` indexes `keys[primary]` for the first cookie / placeholder it meets
+    if !info.keysOk && (req.auth ++ req.enc).any isCookieLike then .panic
     else
     .ok { hdr := timeHeader info env req disp,
           untrusted := [],
@@ -417,7 +421,7 @@ def handleInner (cfg : Config) (info : Info) (env : Env) (req : Req) : Inner :=
       if !req.client then .done [⟨req.fv, false, .parse, .ignore⟩]
       else respond cfg info env req action reason req.cookie
     | .dec =>
-      if !req.client then .done [⟨req.fv, false, .parse, .ignore⟩]
+      if !req.client || !req.draftOk then .done [⟨req.fv, false, .parse, .ignore⟩]
       else if action ≠ .deny then respond cfg info env req .nak .crypto none
       else respond cfg info env req action reason none
 
